@@ -490,4 +490,19 @@ theorem mouse_update_body_explicit (o : Oracle) (hq : ∀ w ev ph k, o.h w ev ph
     rw [h2, h1]
   · simp [mouseUpdate, hm]
 
+/-- **An error from a hover handler keeps the hit list**: when the executed `mouseHandler.update` returns an error (a MouseLeave
+    or MouseEnter handler failed), `m.lastHits` is what it was — the new list is NOT stored, so the widgets already told MouseLeave
+    are still recorded as entered when `Run` returns the error. -/
+theorem mouse_update_body_error_keeps_hits (e : EOracle) (fuel : Nat) (s : St) (t : STree) (s' : St)
+    (h : runMouseUpdate (parseBody Gen.VxfwBodies.mouseUpdate) e fuel s t = some (s', true)) : s'.lastHits = s.lastHits := by
+  rw [mouse_update_body_eq_model] at h
+  have h1 : (eMouseUpdate e fuel s t).2 = true := by
+    have := congrArg (fun x => x.map (·.2)) h
+    simpa using this
+  have h2 : (eMouseUpdate e fuel s t).1 = s' := by
+    have := congrArg (fun x => x.map (·.1)) h
+    simpa using this
+  rw [← h2]
+  exact Lemmas.VxfwBodyRun.eMouseUpdate_err_hits e fuel s t h1
+
 end VaxisModel.Props.C15Body
